@@ -3,7 +3,7 @@
    as they arrived at / were answered by the scripted replicas, post (writable list after,
    and whether Topology.Vacuum had returned).  Events:
      {"ev":"pre","w":[vids]}   {"ev":"call","v","r","op","wc"}   {"ev":"ret","v","r","op","out"}
-     {"ev":"post","w":[vids],"done":bool}
+     {"ev":"post","w":[vids],"done":bool}   {"ev":"round","s":[...]} (Vacuum is called again)
    `wc` (number of writable volumes when the call arrived) is recorded but not judged here:
    the statement is silent about writability during the round (layer B predicts it). *)
 EXTENDS VacuumRound, TraceKit
@@ -30,6 +30,7 @@ TPost == /\ IsEvent("post")
               /\ Post(Range(Ev.w) \cap Vols, Ev.done, D)
               /\ \A d \in D : ~PostAdmits(Range(Ev.w) \cap Vols, Ev.done, D \ {d})
               /\ used' = used \cup D
-TraceNext == TraceReset \/ TraceSkip \/ TPre \/ TCall \/ TRet \/ TPost
+TRound == IsEvent("round") /\ Strict /\ NextRound
+TraceNext == TraceReset \/ TraceSkip \/ TPre \/ TCall \/ TRet \/ TPost \/ TRound
 TraceSpec == TraceInit /\ [][TraceNext]_tvars
 =============================================================================
